@@ -21,3 +21,4 @@ for j in jobs:
             print(j.name, sfx, v[:400])
             bad[j.fmt.codec] += 1
 print(stats, "verdicts=%d bad=%s wall=%.1fs" % (len(verdicts), dict(bad), wall))
+print("state twins differing:", [(j.name, j.gmix_bad) for j in jobs if getattr(j, "gmix_bad", None)][:6])
